@@ -20,8 +20,10 @@ same temperature.
 A *work item* is one (kind, shape, material) triple; a recorded violation carries the single start and
 path that fails, so ``evaluate(case)`` replays exactly that execution.
 """
+import copy
 import itertools
 import math
+import pickle
 
 from mcverif import core
 from mcverif.checks import c03_matlib as matlib
@@ -693,6 +695,8 @@ def _eval_linked(case):
     Tcl = _linked_grid(CLAD_MAT)
     Tb = [200.0, 500.0]
     ops = [["fuel", i] for i in range(len(Tf))] + [["clad", i] for i in range(len(Tcl))] + ([["bond", 1]] if cfg == "pin" else [])
+    # copies of the whole block: later operations go to the copy or stay with the original; both are checked
+    ops += [["copy", how, where] for how in ("deepcopy", "pickle") for where in ("copy", "orig")]
     if "path" in case:
         paths = [case["path"]]
     else:
@@ -734,29 +738,15 @@ def _eval_linked(case):
             bad("construct-raises", "linked/%s" % type(e).__name__, "construction raised %r" % (e,), path)
             continue
         def body(b=b, comps=comps, links=links, path=path):
-            tf, tc = 1, 1
-            fuel, clad = comps["fuel"], comps["clad"]
-            linf0 = _lin_mass(fuel, fuel.getArea())
+            # the block under operation, and every other copy of it made along the way (each with the
+            # temperatures it had when the two parted)
+            act = {"b": b, "comps": comps, "tf": 1, "tc": 1, "tag": "original"}
+            others = []
+            linf0 = _lin_mass(comps["fuel"], comps["fuel"].getArea())
             changed = False
-            for k in range(len(path) + 1):
-                if k > 0:
-                    who, i = path[k - 1]
-                    st["steps"] += 1
-                    try:
-                        if who == "fuel":
-                            changed = changed or i != tf
-                            tf = i
-                            fuel.setTemperature(Tf[i])
-                        elif who == "clad":
-                            changed = changed or i != tc
-                            tc = i
-                            clad.setTemperature(Tcl[i])
-                        else:
-                            comps["bond"].setTemperature(Tb[i])
-                    except Exception as e:
-                        bad("setTemperature-raises", "linked/%s" % type(e).__name__, "setTemperature on %s raised %r" % (who, e), path[:k])
-                        break
-                cur = path[:k]
+
+            def check(blk, cur):
+                cm, tf, tc, tag = blk["comps"], blk["tf"], blk["tc"], blk["tag"]
                 ff = reff.f(Tf[0], Tf[tf])
                 fc = refc.f(Tcl[0], Tcl[tc])
                 st["fvals"].add((round(ff, 12), round(fc, 12)))
@@ -765,20 +755,22 @@ def _eval_linked(case):
                 if cfg == "pin":
                     want[("clad", "id")] = 1.0 * scale * fc
                 for (cn, dn), w in sorted(want.items()):
-                    got = comps[cn].getDimension(dn)
+                    got = cm[cn].getDimension(dn)
                     if _rel(got, w) > TOL:
-                        bad("dimension-not-scaled", "linked.%s.%s" % (cn, dn), "%s.%s reads %r expected %r" % (cn, dn, got, w), cur)
+                        bad("dimension-not-scaled", "linked.%s.%s" % (cn, dn), "[%s] %s.%s reads %r expected %r" % (tag, cn, dn, got, w), cur)
                 for cn, dn, tn, tdn in links:
-                    got = comps[cn].getDimension(dn)
-                    tgt = comps[tn].getDimension(tdn)
+                    got = cm[cn].getDimension(dn)
+                    tgt = cm[tn].getDimension(tdn)
                     if got != tgt or _rel(got, want[(tn, tdn)]) > TOL:
-                        bad("link-not-current", "%s.%s<-%s.%s" % (cn, dn, tn, tdn), "%s.%s reads %r but %s.%s is %r (oracle %r)" % (cn, dn, got, tn, tdn, tgt, want[(tn, tdn)]), cur)
-                    gcold = comps[cn].getDimension(dn, cold=True)
-                    tcold = comps[tn].getDimension(tdn, cold=True)
+                        bad("link-not-current", "%s.%s<-%s.%s" % (cn, dn, tn, tdn), "[%s] %s.%s reads %r but %s.%s of the same block is %r (oracle %r)" % (tag, cn, dn, got, tn, tdn, tgt, want[(tn, tdn)]), cur)
+                    gcold = cm[cn].getDimension(dn, cold=True)
+                    tcold = cm[tn].getDimension(tdn, cold=True)
                     if gcold != tcold:
-                        bad("link-not-current", "%s.%s<-%s.%s" % (cn, dn, tn, tdn), "cold %s.%s reads %r but cold %s.%s is %r" % (cn, dn, gcold, tn, tdn, tcold), cur)
-                    if not comps[cn].dimensionIsLinked(dn):
-                        bad("link-lost", "%s.%s<-%s.%s" % (cn, dn, tn, tdn), "%s.%s is no longer a link" % (cn, dn), cur)
+                        bad("link-not-current", "%s.%s<-%s.%s" % (cn, dn, tn, tdn), "[%s] cold %s.%s reads %r but cold %s.%s is %r" % (tag, cn, dn, gcold, tn, tdn, tcold), cur)
+                    if not cm[cn].dimensionIsLinked(dn):
+                        bad("link-lost", "%s.%s<-%s.%s" % (cn, dn, tn, tdn), "[%s] %s.%s is no longer a link" % (tag, cn, dn), cur)
+                    elif (dn, tdn) not in cm[cn].getDimensionNamesLinkedTo(cm[tn]) or cm[tn].parent is not blk["b"] or cm[cn].parent is not blk["b"]:
+                        bad("link-leaves-block", "%s.%s<-%s.%s" % (cn, dn, tn, tdn), "[%s] %s.%s is not linked to the %s of its own block" % (tag, cn, dn, tn), cur)
                 # areas and cached volumes of every component follow the current dimensions
                 fod, cod = want[("fuel", "od")], want[("clad", "od")]
                 cid = want[("clad", "id")] if cfg == "pin" else fod
@@ -786,18 +778,51 @@ def _eval_linked(case):
                 if cfg == "pin":
                     areas["bond"] = PI / 4.0 * (cid**2 - fod**2) * 7.0
                 for cn, wa in sorted(areas.items()):
-                    a = comps[cn].getArea()
+                    a = cm[cn].getArea()
                     if _rel(a, wa) > 1e-9:  # difference of squares of nearly equal numbers
-                        bad("link-area", "linked.%s" % cn, "%s area %r expected %r from the current diameters" % (cn, a, wa), cur)
-                    v = comps[cn].getVolume()
+                        bad("link-area", "linked.%s" % cn, "[%s] %s area %r expected %r from the current diameters" % (tag, cn, a, wa), cur)
+                    v = cm[cn].getVolume()
                     if _rel(v, a * HEIGHT) > TOL:
-                        bad("link-volume-stale", "linked.%s" % cn, "%s getVolume %r but current area x height = %r" % (cn, v, a * HEIGHT), cur)
-                lf = _lin_mass(fuel, fuel.getArea())
+                        bad("link-volume-stale", "linked.%s" % cn, "[%s] %s getVolume %r but current area x height = %r" % (tag, cn, v, a * HEIGHT), cur)
+                lf = _lin_mass(cm["fuel"], cm["fuel"].getArea())
                 if _rel(lf, linf0) > TOL:
-                    bad("mass-per-height", matname, "fuel mass per unit height %r, was %r" % (lf, linf0), cur)
+                    bad("mass-per-height", matname, "[%s] fuel mass per unit height %r, was %r" % (tag, lf, linf0), cur)
+
+            for k in range(len(path) + 1):
+                if k > 0:
+                    who, i = path[k - 1][0], path[k - 1][1]
+                    st["steps"] += 1
+                    try:
+                        if who == "fuel":
+                            changed = changed or i != act["tf"]
+                            act["tf"] = i
+                            act["comps"]["fuel"].setTemperature(Tf[i])
+                        elif who == "clad":
+                            changed = changed or i != act["tc"]
+                            act["tc"] = i
+                            act["comps"]["clad"].setTemperature(Tcl[i])
+                        elif who == "copy":
+                            how, where = i, path[k - 1][2]
+                            nb_ = copy.deepcopy(act["b"]) if how == "deepcopy" else pickle.loads(pickle.dumps(act["b"]))
+                            twin = {"b": nb_, "comps": {c.name: c for c in nb_}, "tf": act["tf"], "tc": act["tc"], "tag": "%s of %s" % (how, act["tag"])}
+                            if where == "copy":
+                                others.append(act)
+                                act = twin
+                            else:
+                                others.append(twin)
+                        else:
+                            act["comps"]["bond"].setTemperature(Tb[i])
+                    except Exception as e:
+                        bad("setTemperature-raises", "linked/%s" % type(e).__name__, "%s raised %r" % (path[k - 1], e), path[:k])
+                        break
+                cur = path[:k]
+                check(act, cur)
+                for o in others:
+                    check(o, cur)
             else:
                 if changed:
                     st["nontrivial"] += 1
+                comps, fuel = act["comps"], act["comps"]["fuel"]
                 # hot set on the link target is seen through the link; hot set through the link lands on the target
                 who, dn = ("bond", "id") if cfg == "pin" else ("clad", "id")
                 v = fuel.getDimension("od") * 0.9
@@ -815,6 +840,9 @@ def _eval_linked(case):
                 v = comps[who].getVolume()
                 if _rel(v, a * HEIGHT) > TOL:
                     bad("link-volume-stale", "linked.%s" % who, "%s getVolume %r but area x height = %r after hot set" % (who, v, a * HEIGHT), path)
+                # the hot sets on the block under operation leave every other copy alone
+                for o in others:
+                    check(o, path)
 
         try:
             body()
@@ -851,6 +879,7 @@ def _chain_ops():
     ops = [["T", "clad", 0], ["T", "clad", 2], ["T", "liner", 0], ["T", "liner", 2]]
     for cn, dn, v in CHAIN_SET_TARGETS:
         ops += [["set", cn, dn, v, True], ["set", cn, dn, v, False]]
+    ops += [["copy", how, where] for how in ("deepcopy", "pickle") for where in ("copy", "orig")]
     return ops
 
 
@@ -904,14 +933,46 @@ def _eval_chain(case):
                         tn, tdn = v.split(".")
                         comps[cn].setLink(dn, comps[tn], tdn)
 
-        def f(cn):
-            return ref.f(Tg[0], Tg[temp[cn]]) if CHAIN_MATS[cn] == "HT9" else 1.0
+        act = {"b": b, "comps": comps, "model": model, "temp": temp, "tag": "original"}
+        others = []
 
-        def want(cn, dn):
-            kind_, v = model[(cn, dn)]
+        def f(blk, cn):
+            return ref.f(Tg[0], Tg[blk["temp"][cn]]) if CHAIN_MATS[cn] == "HT9" else 1.0
+
+        def want(blk, cn, dn):
+            kind_, v = blk["model"][(cn, dn)]
             if kind_ == "link":
-                return want(*v)
-            return v * f(cn) if dn in ("od", "id") else v
+                return want(blk, *v)
+            return v * f(blk, cn) if dn in ("od", "id") else v
+
+        def check(blk, cur):
+            cm, tag = blk["comps"], blk["tag"]
+            st["checked_states"] += 1
+            st["fvals"].add((round(f(blk, "clad"), 12), round(f(blk, "liner"), 12)))
+            for (cn, dn), (kind_, v) in sorted(blk["model"].items()):
+                got = cm[cn].getDimension(dn)
+                w = want(blk, cn, dn)
+                if _rel(got, w) > TOL:
+                    bad("chain-dimension", "%s.%s" % (cn, dn), "[%s] %s.%s reads %r, the model (own numbers x f, links read the current value of their target in the same block) gives %r" % (tag, cn, dn, got, w), cur)
+                if kind_ == "link":
+                    tgt = cm[v[0]].getDimension(v[1])
+                    if got != tgt:
+                        bad("link-not-current", "chain.%s.%s<-%s.%s" % (cn, dn, v[0], v[1]), "[%s] %s.%s reads %r but the dimension it is linked to, %s.%s, is currently %r" % (tag, cn, dn, got, v[0], v[1], tgt), cur)
+                    if not cm[cn].dimensionIsLinked(dn):
+                        bad("link-lost", "chain.%s.%s" % (cn, dn), "[%s] %s.%s is no longer a link" % (tag, cn, dn), cur)
+                    elif (dn, v[1]) not in cm[cn].getDimensionNamesLinkedTo(cm[v[0]]) or cm[cn].parent is not blk["b"] or cm[v[0]].parent is not blk["b"]:
+                        bad("link-leaves-block", "chain.%s.%s<-%s.%s" % (cn, dn, v[0], v[1]), "[%s] %s.%s is not linked to the %s of its own block" % (tag, cn, dn, v[0]), cur)
+                elif cm[cn].dimensionIsLinked(dn):
+                    bad("link-survives-own-value", "chain.%s.%s" % (cn, dn), "[%s] %s.%s was given a value of its own but is still a link" % (tag, cn, dn), cur)
+            for cn, c in cm.items():
+                od, idd, mult = want(blk, cn, "od"), want(blk, cn, "id"), want(blk, cn, "mult")
+                wa = PI / 4.0 * (od * od - idd * idd) * mult
+                a = c.getArea()
+                if abs(a - wa) > 1e-9 * max(abs(wa), od * od):
+                    bad("link-area", "chain.%s" % cn, "[%s] %s area %r expected %r from the current diameters" % (tag, cn, a, wa), cur)
+                vol = c.getVolume()
+                if abs(vol - a * HEIGHT) > 1e-9 * max(abs(a) * HEIGHT, od * od):
+                    bad("link-volume-stale", "chain.%s" % cn, "[%s] %s getVolume %r but current area x height = %r" % (tag, cn, vol, a * HEIGHT), cur)
 
         changed = False
         for k in range(len(path) + 1):
@@ -919,41 +980,28 @@ def _eval_chain(case):
                 op = path[k - 1]
                 st["steps"] += 1
                 if op[0] == "T":
-                    changed = changed or temp[op[1]] != op[2]
-                    temp[op[1]] = op[2]
-                    comps[op[1]].setTemperature(Tg[op[2]])
+                    changed = changed or act["temp"][op[1]] != op[2]
+                    act["temp"][op[1]] = op[2]
+                    act["comps"][op[1]].setTemperature(Tg[op[2]])
+                elif op[0] == "copy":
+                    nb_ = copy.deepcopy(act["b"]) if op[1] == "deepcopy" else pickle.loads(pickle.dumps(act["b"]))
+                    twin = {"b": nb_, "comps": {c.name: c for c in nb_}, "model": dict(act["model"]), "temp": dict(act["temp"]), "tag": "%s of %s" % (op[1], act["tag"])}
+                    if op[2] == "copy":
+                        others.append(act)
+                        act = twin
+                    else:
+                        others.append(twin)
                 else:
                     _, cn, dn, v, cold = op
                     v = v * scale
                     changed = True
-                    comps[cn].setDimension(dn, v, cold=cold)
+                    act["comps"][cn].setDimension(dn, v, cold=cold)
                     st["hotsets"] += 0 if cold else 1
-                    model[(cn, dn)] = ("val", v if cold else v / f(cn))
+                    act["model"][(cn, dn)] = ("val", v if cold else v / f(act, cn))
             cur = path[:k]
-            st["checked_states"] += 1
-            st["fvals"].add((round(f("clad"), 12), round(f("liner"), 12)))
-            for (cn, dn), (kind_, v) in sorted(model.items()):
-                got = comps[cn].getDimension(dn)
-                w = want(cn, dn)
-                if _rel(got, w) > TOL:
-                    bad("chain-dimension", "%s.%s" % (cn, dn), "%s.%s reads %r, the model (own numbers x f, links read the current value of their target) gives %r" % (cn, dn, got, w), cur)
-                if kind_ == "link":
-                    tgt = comps[v[0]].getDimension(v[1])
-                    if got != tgt:
-                        bad("link-not-current", "chain.%s.%s<-%s.%s" % (cn, dn, v[0], v[1]), "%s.%s reads %r but the dimension it is linked to, %s.%s, is currently %r" % (cn, dn, got, v[0], v[1], tgt), cur)
-                    if not comps[cn].dimensionIsLinked(dn):
-                        bad("link-lost", "chain.%s.%s" % (cn, dn), "%s.%s is no longer a link" % (cn, dn), cur)
-                elif comps[cn].dimensionIsLinked(dn):
-                    bad("link-survives-own-value", "chain.%s.%s" % (cn, dn), "%s.%s was given a value of its own but is still a link" % (cn, dn), cur)
-            for cn, c in comps.items():
-                od, idd, mult = want(cn, "od"), want(cn, "id"), want(cn, "mult")
-                wa = PI / 4.0 * (od * od - idd * idd) * mult
-                a = c.getArea()
-                if abs(a - wa) > 1e-9 * max(abs(wa), od * od):
-                    bad("link-area", "chain.%s" % cn, "%s area %r expected %r from the current diameters" % (cn, a, wa), cur)
-                vol = c.getVolume()
-                if abs(vol - a * HEIGHT) > 1e-9 * max(abs(a) * HEIGHT, od * od):
-                    bad("link-volume-stale", "chain.%s" % cn, "%s getVolume %r but current area x height = %r" % (cn, vol, a * HEIGHT), cur)
+            check(act, cur)
+            for o in others:
+                check(o, cur)
         return changed
 
     for path in paths:
